@@ -466,6 +466,10 @@ func renderCanon(raw json.RawMessage) []byte {
 // runInventory runs a Trace_* spec in inventory mode over the lines and returns TLC's result.
 func runInventory(c *chk.Ctx, module, cfg string, lines []string, consts map[string]string) *tlc.Result {
 	f, err := os.CreateTemp("", "vh-trace-*.ndjson")
+	if err == nil {
+		name := f.Name()
+		chk.AtExit(func() { _ = os.Remove(name) })
+	}
 	if err != nil {
 		c.Broken("%v", err)
 	}
